@@ -1,10 +1,195 @@
 (* C05 — editable graphs behave as an abstract simple graph under every edit history.
-   (stub of milestone 1: the index lemma; the refinement theorems follow) *)
-From Coq Require Import List ZArith Arith.
-From Mamba Require Import Graph.Model Graph.Tri.
+
+   Model (coq/Graph/Model.v): [dense] = DenseGraph at array level (one backing array [darr] whose
+   length is the capacity, slice length [dlen], cached n, m, degree sequence), [sparse] =
+   SparseGraph (neighbour lists, cached n, m, degrees), [agraph] = number of vertices plus an
+   adjacency predicate.  A Go panic is [None].  A history is a list of (store index, operation)
+   run by [run] over a store of graphs; Copy / InducedSubgraph append the returned graph.
+
+   [Rd g a] / [Rs g a] (coq/Graph/Dense.v, Sparse.v): g represents the well-formed (symmetric,
+   loop-free, in-range) abstract graph a; they say nothing about the stale part of the dense
+   backing array beyond the slice.  [hvalid ast h] (coq/Graph/Refine.v): every operation of h
+   addresses an existing store entry and has valid arguments for the graph it is applied to
+   (vertices in range; the neighbour list of AddVertex and the list V of InducedSubgraph
+   duplicate-free, in any order).  [d_obs], [s_obs]: N, M, Degrees, IsEdge, Neighbours of the
+   implementation model return (without panic) exactly the abstract observers; [ds_obs]: the
+   dense and the sparse observers agree and the common neighbour lists are strictly ascending.
+
+   Not a theorem here: "Copy and InducedSubgraph share no state with their source" is a frame
+   property that holds by construction in a functional model (the store entries are values);
+   on the Go code it is decided only by the correspondence run, which edits source and copy
+   alternately and compares all observers of every live graph after every operation. *)
+From Coq Require Import List ZArith Arith Sorted.
+From Mamba Require Import Graph.Model Graph.Tri Graph.Abstract Graph.Dense Graph.Sparse Graph.Refine.
+Import ListNotations.
 
 (* distinct vertex pairs occupy distinct cells of the packed triangle *)
-Theorem C05_tri_index_injective_partial : forall i j i' j', i < j -> i' < j' ->
+Theorem C05_tri_index_injective : forall i j i' j', i < j -> i' < j' ->
   tri j + i = tri j' + i' -> i = i' /\ j = j'.
 Proof. exact tri_inj. Qed.
-Print Assumptions C05_tri_index_injective_partial.
+Print Assumptions C05_tri_index_injective.
+
+(* one operation with valid arguments on a graph that represents a: no panic, the receiver then
+   represents the abstract result, and a graph is returned exactly when the abstract operation
+   returns one, which it represents ([orel]).  This is independent of how a caller stores the
+   returned graphs. *)
+Theorem C05_dense_step : forall g a o, Rd g a -> op_valid (an a) o ->
+  exists g' new, d_step g o = Some (g', new) /\
+    Rd g' (fst (a_step a o)) /\ orel Rd new (snd (a_step a o)).
+Proof. exact d_step_sim. Qed.
+Print Assumptions C05_dense_step.
+
+Theorem C05_sparse_step : forall g a o, Rs g a -> op_valid (an a) o ->
+  exists g' new, s_step g o = Some (g', new) /\
+    Rs g' (fst (a_step a o)) /\ orel Rs new (snd (a_step a o)).
+Proof. exact s_step_sim. Qed.
+Print Assumptions C05_sparse_step.
+
+(* DenseGraph: from any store of graphs representing abstract graphs, every valid finite history
+   runs without panic, the resulting graphs again represent the graphs of the abstract run, and
+   all their observers equal the abstract observers *)
+Theorem C05_dense_history : forall dst ast h, Forall2 Rd dst ast -> hvalid ast h ->
+  exists dst', run d_step dst h = Some dst' /\
+    run a_step' ast h = Some (arun ast h) /\
+    Forall2 Rd dst' (arun ast h) /\ Forall2 d_obs dst' (arun ast h).
+Proof. exact dense_history. Qed.
+Print Assumptions C05_dense_history.
+
+(* SparseGraph: the same *)
+Theorem C05_sparse_history : forall sst ast h, Forall2 Rs sst ast -> hvalid ast h ->
+  exists sst', run s_step sst h = Some sst' /\
+    run a_step' ast h = Some (arun ast h) /\
+    Forall2 Rs sst' (arun ast h) /\ Forall2 s_obs sst' (arun ast h).
+Proof. exact sparse_history. Qed.
+Print Assumptions C05_sparse_history.
+
+(* the two representations agree with each other after every valid history *)
+Theorem C05_dense_sparse_agree : forall dst sst ast h,
+  Forall2 Rd dst ast -> Forall2 Rs sst ast -> hvalid ast h ->
+  exists dst' sst', run d_step dst h = Some dst' /\ run s_step sst h = Some sst' /\
+    Forall2 ds_obs dst' sst'.
+Proof. exact dense_sparse_history. Qed.
+Print Assumptions C05_dense_sparse_agree.
+
+(* starting from NewDense(n, nil) / NewSparse(n, nil): no hypothesis but the validity of the
+   history *)
+Theorem C05_from_empty : forall n0 h, hvalid [a_empty n0] h ->
+  exists dst sst, run d_step [d_empty n0] h = Some dst /\ run s_step [s_empty n0] h = Some sst /\
+    run a_step' [a_empty n0] h = Some (arun [a_empty n0] h) /\
+    Forall2 d_obs dst (arun [a_empty n0] h) /\ Forall2 s_obs sst (arun [a_empty n0] h) /\
+    Forall2 ds_obs dst sst.
+Proof. exact empty_history. Qed.
+Print Assumptions C05_from_empty.
+
+(* the abstract run is a plain adjacency-set model of a loop-free undirected graph: every graph
+   stays symmetric, irreflexive and in range; Neighbours is the ascending list of the adjacent
+   vertices, Degrees their number, and M half the degree sum (M itself is, by definition, the
+   number of pairs i<j that are adjacent) *)
+Theorem C05_abstract_is_simple_graph : forall ast h, Forall awf ast -> hvalid ast h ->
+  Forall (fun a => awf a /\
+     (forall v u, In u (a_neighbours a v) <-> adj a v u = true) /\
+     (forall v, StronglySorted lt (a_neighbours a v)) /\
+     (forall v, a_deg a v = Z.of_nat (length (a_neighbours a v))) /\
+     (zsum (a_deg a) (an a) = 2 * a_M a)%Z) (arun ast h).
+Proof. exact abstract_meaning. Qed.
+Print Assumptions C05_abstract_is_simple_graph.
+
+(* Copy returns the receiver unchanged and a graph representing the same abstract graph *)
+Theorem C05_dense_copy : forall g a, Rd g a ->
+  exists h, d_step g OCopy = Some (g, Some h) /\ Rd h a /\ d_obs h a.
+Proof. exact dense_copy. Qed.
+Print Assumptions C05_dense_copy.
+
+Theorem C05_sparse_copy : forall g a, Rs g a ->
+  exists h, s_step g OCopy = Some (g, Some h) /\ Rs h a /\ s_obs h a.
+Proof. exact sparse_copy. Qed.
+Print Assumptions C05_sparse_copy.
+
+(* InducedSubgraph(V) returns the receiver unchanged and a graph on len(V) vertices in which
+   vertex x stands for V[x] *)
+Theorem C05_dense_induced_maps : forall g a V,
+  Rd g a -> NoDup V -> (forall x, In x V -> x < an a) ->
+  exists h, d_step g (OInduced V) = Some (g, Some h) /\ Rd h (a_induced a V) /\
+    d_N h = length V /\
+    forall x y vx vy, nth_error V x = Some vx -> nth_error V y = Some vy ->
+      d_is_edge h x y = d_is_edge g vx vy /\ d_is_edge h x y = Some (adj a vx vy).
+Proof. exact dense_induced_maps. Qed.
+Print Assumptions C05_dense_induced_maps.
+
+Theorem C05_sparse_induced_maps : forall g a V,
+  Rs g a -> NoDup V -> (forall x, In x V -> x < an a) ->
+  exists h, s_step g (OInduced V) = Some (g, Some h) /\ Rs h (a_induced a V) /\
+    s_N h = length V /\
+    forall x y vx vy, nth_error V x = Some vx -> nth_error V y = Some vy ->
+      s_is_edge h x y = s_is_edge g vx vy /\ s_is_edge h x y = Some (adj a vx vy).
+Proof. exact sparse_induced_maps. Qed.
+Print Assumptions C05_sparse_induced_maps.
+
+(* ------------------------------------------------------------------ non-vacuity *)
+(* a valid history using every operation, a non-last RemoveVertex followed by an AddVertex into
+   the stale capacity, edits of a copy and of its source, an induced subgraph that is edited *)
+Definition h0 : list (nat * op) :=
+  [(0, OAddE 0 1); (0, OAddE 1 2); (0, OAddE 2 3); (0, OAddE 0 3); (0, ORemV 1); (0, OAddV [2]);
+   (0, OCopy); (1, ORemE 0 2); (0, OAddE 0 1); (1, OInduced [3; 1; 2]); (2, ORemV 0);
+   (0, OAddE 1 1); (0, ORemE 2 0)].
+
+Example C05_tri_index_nonvacuous : 1 < 3 /\ tri 3 + 1 = 4.
+Proof. split; [repeat constructor | vm_compute; reflexivity]. Qed.
+
+Example C05_history_nonvacuous :
+  hvalid [a_empty 4] h0 /\ Forall2 Rd [d_empty 4] [a_empty 4] /\ Forall2 Rs [s_empty 4] [a_empty 4] /\
+  option_map (map (fun g => (dn g, dm g, ddeg g, darr g, dlen g))) (run d_step [d_empty 4] h0) =
+    Some [(4, 3%Z, [1%Z; 2%Z; 2%Z; 1%Z], [1%Z; 0%Z; 1%Z; 0%Z; 0%Z; 1%Z], 6);
+          (4, 2%Z, [0%Z; 1%Z; 2%Z; 1%Z], [0%Z; 0%Z; 1%Z; 0%Z; 0%Z; 1%Z], 6);
+          (2, 1%Z, [1%Z; 1%Z], [1%Z; 1%Z; 1%Z], 1)] /\
+  option_map (map (fun g => (sn g, sm g, sdeg g, snbr g))) (run s_step [s_empty 4] h0) =
+    Some [(4, 3%Z, [1%Z; 2%Z; 2%Z; 1%Z], [[1]; [0; 2]; [1; 3]; [2]]);
+          (4, 2%Z, [0%Z; 1%Z; 2%Z; 1%Z], [[]; [2]; [1; 3]; [2]]);
+          (2, 1%Z, [1%Z; 1%Z], [[1]; [0]])] /\
+  map (fun a => (a_N a, a_M a, a_degrees a, map (a_neighbours a) (seq 0 (an a)))) (arun [a_empty 4] h0) =
+    [(4, 3%Z, [1%Z; 2%Z; 2%Z; 1%Z], [[1]; [0; 2]; [1; 3]; [2]]);
+     (4, 2%Z, [0%Z; 1%Z; 2%Z; 1%Z], [[]; [2]; [1; 3]; [2]]);
+     (2, 1%Z, [1%Z; 1%Z], [[1]; [0]])].
+Proof.
+  split; [apply hvalidb_spec; vm_compute; reflexivity|].
+  split; [constructor; [apply Rd_empty|constructor]|].
+  split; [constructor; [apply Rs_empty|constructor]|].
+  split; [vm_compute; reflexivity|]. split; vm_compute; reflexivity.
+Qed.
+
+Example C05_abstract_nonvacuous : Forall awf [a_empty 4] /\ hvalid [a_empty 4] h0.
+Proof.
+  split; [constructor; [apply awf_empty|constructor]|].
+  apply hvalidb_spec; vm_compute; reflexivity.
+Qed.
+
+(* graphs with edges that represent an abstract graph, and a valid V in arbitrary order *)
+Example C05_dense_graph_nonvacuous : exists g a,
+  Rd g a /\ d_M g = 2%Z /\ NoDup [2; 0] /\ (forall x, In x [2; 0] -> x < an a) /\
+  op_valid (an a) (ORemV 1) /\ op_valid (an a) (OAddV [2; 0]).
+Proof.
+  destruct (C05_dense_history [d_empty 3] [a_empty 3] [(0, OAddE 0 2); (0, OAddE 2 1)])
+    as (dst & E & _ & F & _).
+  - constructor; [apply Rd_empty|constructor].
+  - apply hvalidb_spec; vm_compute; reflexivity.
+  - vm_compute in E. inversion E; subst. inversion F; subst.
+    eexists. eexists. split; [eassumption|]. split; [reflexivity|].
+    split; [repeat constructor; simpl; intuition discriminate|].
+    split; [simpl; intros x [<-|[<-|[]]]; repeat constructor|].
+    split; apply op_validb_spec; vm_compute; reflexivity.
+Qed.
+
+Example C05_sparse_graph_nonvacuous : exists g a,
+  Rs g a /\ s_M g = 2%Z /\ NoDup [2; 0] /\ (forall x, In x [2; 0] -> x < an a) /\
+  op_valid (an a) (ORemV 1) /\ op_valid (an a) (OAddV [2; 0]).
+Proof.
+  destruct (C05_sparse_history [s_empty 3] [a_empty 3] [(0, OAddE 0 2); (0, OAddE 2 1)])
+    as (sst & E & _ & F & _).
+  - constructor; [apply Rs_empty|constructor].
+  - apply hvalidb_spec; vm_compute; reflexivity.
+  - vm_compute in E. inversion E; subst. inversion F; subst.
+    eexists. eexists. split; [eassumption|]. split; [reflexivity|].
+    split; [repeat constructor; simpl; intuition discriminate|].
+    split; [simpl; intros x [<-|[<-|[]]]; repeat constructor|].
+    split; apply op_validb_spec; vm_compute; reflexivity.
+Qed.
